@@ -106,7 +106,7 @@ ADDED = {
  "C02": "Also: no branch of the token consumers judges the content of a text string (strcontent); the token handed to the sink is storage of the Marshal call, through state structs and recursion stages (freshtoken); for every UintNode implementation AsUint applies the user conversions AsInt applies, so dag-cbor (which asks AsUint first) encodes the integer every other reader sees (uintsame).",
  "C05": "Also: neither the bytes a bundled decoder assigns nor the reader the link system hands to a decoder come from recycled storage (decoderbytes). Each chooser of the registry-based link system returns an error only for the registry's own refusal or a foreign prototype type (chooserrefuses).",
  "C06": "Also: Fill drains the rest of the stream into the hasher on every path after the decoder ran (wholestream); Store writes through the storage writer directly or through an error latch of the package whose error gates the commit (nocommit).",
- "C07": "Also: stated interests are explored in the stated order (engine); the stop-at condition compares links as wholes (stopat); a union lists a shared segment once and asks each member once (unioninterests).",
+ "C07": "Also: stated interests are explored in the stated order (engine); the stop-at condition compares links as wholes (stopat); a union lists a shared segment once and asks each member once (unioninterests). No Match method of a selector consults Decide (matchdelegates).",
  "C08": "Also: a kinded union's re-pointed member is used at type level only after its own strategy was consulted (kindedrepr). The places of bindnode that answer Null / Absent for a nil Go value decide it under the same tests (nullsame, sibling agreement).",
  "C09": "Also: a stringjoin struct is split without a limit (splitexact); reflect accessors are applied to the materialised slot, never to the raw (possibly pointer) value (materialised); the reverse key mapping has no identity fallback for type-level names (reversekey); AssignNode never writes the slot itself (assignnodechecked); a list assembler of fixed arity (the listpairs pair) refuses to finish below it (arity); every AssignString that can write a string into the bound Go value consults the enum members (enummember). Where a repeated key is rejected on a look-up in the index, every successful return of that function lies beyond the look-up (repeat, must-pass-through).",
  "C10": "Also: both decoders bound nesting by the same comparison (depth, sibling agreement); slice bounds are normalised against the length of the value that is sliced (slicedomain). An element of untrusted bytes is read at a constant index only where len() of them was compared beyond it (index); a number parsed from a path segment or read from a node indexes a slice only where bounded from below and above (untrustedindex).",
